@@ -354,12 +354,19 @@ def flatten_rule(ctx):
                 found = guards
     if found is None:
         raise AnalysisError("SuitKeyValue.to_cbor: flattening update(...) not recognised")
+    # decision table: for a key that is each of the key classes named in the guards, and for any other key, is update() reached?
+    from sa.teval import teval as _teval, Unknown as _Unknown
+    atoms = [s_ for g, _ in found for s_ in subterms(g) if isinstance(s_, App) and s_.op in ("is", "is not") and isinstance(s_.args[1], Ref)
+             and s_.args[1].kind == "class"]
+    names = sorted({a_.args[1].obj.name for a_ in atoms})
     keys = set()
-    for g, pol in found:
-        if pol:
-            for s in subterms(g):
-                if isinstance(s, App) and s.op == "is" and isinstance(s.args[1], Ref) and s.args[1].kind == "class":
-                    keys.add(s.args[1].obj.name)
+    try:
+        for which in names + ["<any other key>"]:
+            env = {a_: ((a_.args[1].obj.name == which) == (a_.op == "is")) for a_ in atoms}
+            if all(bool(_teval(g, env)) == pol for g, pol in found):
+                keys.add(which)
+    except _Unknown as e_:
+        raise AnalysisError(f"SuitKeyValue.to_cbor: guard of the flattening update(...) not evaluable ({e_})")
     R.check("C02-D3b integrated members flattened", keys == {"suit_integrated_payloads", "suit_integrated_dependencies"},
             "SuitKeyValue.to_cbor", mod=fi.module, node=fi.node, function=ctx.fq(fi),
             expected="flatten exactly suit_integrated_payloads and suit_integrated_dependencies",
